@@ -70,6 +70,9 @@ def run_case(cs):
         files = []
         for i in range(nfiles):
             files.append(rng.choice(places) + "f%d" % i + rng.choice([".bin", " x.mov", "ä.dat"]))
+        if any(f.startswith("K/") for f in files) and rng.random() < 0.5:
+            # names that merely start with the nested folder's name
+            files += rng.sample(["K.xml", "K_b/g.bin", "K 2/h.bin"], rng.randint(1, 2))
         nested = ["K"] if any(f.startswith("K/") for f in files) and rng.random() < 0.7 else []
         mode_sf = rng.random() < 0.25
         trans = []
